@@ -139,6 +139,7 @@ async fn run_scenario(sc: &Value, rng: &mut Rng) -> Value {
     }
     obs["stray_app"] = json!(stray);
 
+    rustrtc::verif::emit("net", "P", "end", json!({"scenario": id}));
     let (ops_out, originals, held) = {
         let st = proxy.state.lock();
         (st.ops.iter().map(|o| o.to_json()).collect::<Vec<_>>(), st.originals.clone(), st.held_count())
